@@ -18,26 +18,27 @@ EXTENDS Integers, Sequences, FiniteSets, TLC
 
 Kinds == {"VI", "PI", "RVI", "PVI", "SAVI"}
 Routes == {"kwargs", "config", "yaml"}
-GammaLevels == {"neg", "zero", "mid", "one", "above"}
-EpsLevels == {"neg", "zero", "tiny", "small", "half", "two", "twenty", "twohundred", "million"}
+GammaLevels == {"neg", "zero", "mid", "one", "above", "int_zero", "int_one"}   \* int_*: passed as Python ints
+EpsLevels == {"neg", "zero", "tiny", "small", "half", "two", "twenty", "twohundred", "million", "int_one", "int_hundred"}
 TestLevels == {"span", "max_diff", "bogus"}
 IssueLevels == {"fifo", "lifo", "FIFO", "random"}
 PLevels == {"neg", "zero", "mid", "one", "above"}
 
-GammaInUnit(g) == g \in {"zero", "mid", "one"}
+GammaInUnit(g) == g \in {"zero", "mid", "one", "int_zero", "int_one"}
+GammaIsOne(g) == g \in {"one", "int_one"}
 EpsPositive(e) == e \notin {"neg", "zero"}
 PInUnit(p) == p \in {"zero", "mid", "one"}
 
 (* documented domains *)
 SolverOK(kind, c) ==
-  /\ IF kind = "RVI" THEN c.gamma = "one" ELSE GammaInUnit(c.gamma)
+  /\ IF kind = "RVI" THEN GammaIsOne(c.gamma) ELSE GammaInUnit(c.gamma)
   /\ EpsPositive(c.eps)
   /\ c.mbs >= 1
   /\ c.freq >= 0 /\ c.keep >= 0
   /\ c.verbose \in 0..4
   /\ (kind \in {"VI", "PI", "SAVI"} => c.test \in {"span", "max_diff"})
   /\ (kind = "PI" => c.evaliter >= 1)
-  /\ (kind = "PVI" => c.period >= 1 /\ (c.gamma = "one" => c.period >= 2))
+  /\ (kind = "PVI" => c.period >= 1 /\ (GammaIsOne(c.gamma) => c.period >= 2))
 
 ProblemOK(c) ==
   CASE c.problem = "forest" -> c.S >= 1 /\ PInUnit(c.p)
